@@ -4,8 +4,12 @@ set -e
 cd "$(dirname "$0")"
 export CARGO_NET_OFFLINE=true
 mkdir -p .build/run evidence replays
-python3 -c "
+python3 - <<'PY'
 from sircv import sut, pure
 print(sut.build())
 print(pure.build())
-"
+try:
+    print(sut.build(features=("verif", "tls_rustls")))
+except sut.BuildError as e:
+    print("TLS build unavailable (C20 TLS twin will be inconclusive):", str(e)[-300:])
+PY
